@@ -64,8 +64,9 @@ def compu_xml(c, it: str, pt: str) -> str:
             up = f"<UPPER-LIMIT>{hi}</UPPER-LIMIT>" if hi != lo or c.get("always_upper") else ""
             sc += (f"<COMPU-SCALE><LOWER-LIMIT>{lo}</LOWER-LIMIT>{up}"
                    f"<COMPU-CONST><VT>{escape(text)}</VT></COMPU-CONST></COMPU-SCALE>")
+        dv = f"<COMPU-DEFAULT-VALUE><VT>{escape(c['default'])}</VT></COMPU-DEFAULT-VALUE>" if c.get("default") is not None else ""
         return ("<COMPU-METHOD><CATEGORY>TEXTTABLE</CATEGORY><COMPU-INTERNAL-TO-PHYS><COMPU-SCALES>"
-                f"{sc}</COMPU-SCALES></COMPU-INTERNAL-TO-PHYS></COMPU-METHOD>")
+                f"{sc}</COMPU-SCALES>{dv}</COMPU-INTERNAL-TO-PHYS></COMPU-METHOD>")
     raise ValueError(k)
 
 
@@ -171,7 +172,7 @@ class Collector:
                     self.dop(r["dop"])
                     ref = f'<DATA-OBJECT-PROP-REF ID-REF="{r["dop"]["id"]}"/>'
                 rx += (f'<TABLE-ROW ID="{r["id"]}"><SHORT-NAME>{r["name"]}</SHORT-NAME><LONG-NAME>{self.uid()}'
-                       f'</LONG-NAME><KEY>{r["key"]}</KEY>{ref}</TABLE-ROW>')
+                       f'</LONG-NAME><KEY>{_val_str(d["keydop"]["pt"], r["key"])}</KEY>{ref}</TABLE-ROW>')
             self.add("TABLES", d["id"],
                      f'<TABLE {head}<KEY-DOP-REF ID-REF="{d["keydop"]["id"]}"/>{rx}</TABLE>')
         elif k == "envdesc":
